@@ -271,7 +271,10 @@ class Machine:
                     r = (Scalar.CreateWithQuantity(a, 2.0) + Scalar.CreateWithQuantity(b, 3.0)).GetQuantity()
                 else:
                     r = (Scalar.CreateWithQuantity(a, 2.0) ** ((op[1] % 3) + 1)).GetQuantity()
-            except (UnitsError, TypeError, ValueError, ZeroDivisionError):
+            except (UnitsError, TypeError, ValueError, ZeroDivisionError) as e:
+                if o in (0, 1, 2, 3, 4, 6) and not isinstance(e, ZeroDivisionError) and core.tree_frame(e) is not None:
+                    # any two quantities can be multiplied and divided (only + and - have a compatibility condition)
+                    self.fail("multiplication_of_quantities_raises:%s" % type(e).__name__, "operation %d on %r and %r raised %s: %s" % (o, a, b, type(e).__name__, str(e)[:150]))
                 self.flags.add("failed_op")
                 self.ctx.cls("arith_rejected")
                 return
